@@ -74,6 +74,15 @@ def replay(pid, path):
             return 1
         print("replay ok: the logged history gives the same answers as fresh analysers")
         return 0
+    if isinstance(rec, dict) and "statemachine_obj" in rec:
+        from vlib import stateful_sbc
+        msg = stateful_sbc.execute(rec["statemachine_obj"])
+        if msg:
+            print("FAIL state machine history: %s" % msg)
+            print("VIOLATION property=%s replay=%s" % (pid, os.path.abspath(path)))
+            return 1
+        print("replay ok: the logged history gives the same answers as fresh objects")
+        return 0
     desc = rec["descriptor"] if "descriptor" in rec else rec
     out = mod.run_case(desc)
     known = load_known(pid)
